@@ -416,6 +416,16 @@ class Check:
                 print(f"OBSERVATION (outside property {self.pid}, specification growth): {key[:300]}")
             seen_obs.add(key)
         rc = 0
+        # self-test of a growth module run stand-alone (bin/mutant <patch> G0x): an observation whose clause is not
+        # in the committed list of clauses observed on the unchanged tree counts as a detection
+        if os.environ.get("VERIF_GROWTH_STRICT") and self.pid.startswith("G"):
+            bp = VERIF / "harness" / "growth" / "baseline_observations.json"
+            base = set(json.loads(bp.read_text()).get(self.pid, [])) if bp.exists() else set()
+            new = sorted({o["clause"] for o in self.observations} - base)
+            for c in new:
+                print(f"VIOLATION property={self.pid} replay=(growth self-test) clause={c}")
+            if new:
+                rc = 1
         if self.violations:
             rdir = Path(os.environ.get("VERIF_REPLAY_DIR") or VERIF / "replays")
             rdir.mkdir(parents=True, exist_ok=True)
